@@ -976,6 +976,51 @@ object in `c` passed `c`'s hint when it was assigned -/
 def chanReadyMemo (memo : Nat → Bool) (P : Params) (s : S) (c : Nat) : Bool :=
   s.val c ≠ .nd && (!(s.hinted c && s.strict c) || memo c || P.admits c (s.val c))
 
+/-! ## replacing a consumer
+
+`Op.replace n pins pouts` — `Composite.replace_child` / `Node.replace_with` / `composite.label = Class` with a
+fresh instance of the node's class — is an operation of the histories (`C03_recency`, `C03_no_bad_store` range
+over it).  The replacement inherits the connection ORDER. -/
+
+/-- whatever a replacement does — refused or carried out — every connection list and every time stamp
+that `C03_most_recent` reads is exactly as before: the fresh node sits where the old one sat, in its own
+lists and in every neighbour's -/
+theorem C03_replace_keeps_order (P : Params) (fuel : Nat) (s : S) (n : Nat) (pins pouts : List Nat) :
+    (replaceNode P fuel s n pins pouts).1.conns = s.conns ∧
+    (replaceNode P fuel s n pins pouts).1.since = s.since ∧
+    (replaceNode P fuel s n pins pouts).1.clock = s.clock := by
+  unfold replaceNode
+  simp only
+  split
+  · obtain ⟨a, b, c⟩ := pushAll_ghost P fuel _
+      (softCopy P fuel s (resetNode s n (s.ins n ++ s.outs n)) (s.ins n ++ s.outs n))
+    obtain ⟨a', b', c', _⟩ := softCopy_ghost P fuel s (resetNode s n (s.ins n ++ s.outs n)) (s.ins n ++ s.outs n)
+    exact ⟨a.trans a', b.trans b', c.trans c'⟩
+  · exact ⟨rfl, rfl, rfl⟩
+
+/-- **replace preserves fetch priority**: for a child of a workflow (no value links to a parent's IO), every
+input of the replaced node whose upstreams belong to other nodes finds, after the replacement, the very
+same first connection holding data — the fetch loop makes the same choice before and after -/
+theorem C03_replace_keeps_priority (P : Params) (fuel : Nat) (s : S) (n i : Nat)
+    (hup : ∀ o ∈ s.conns i, o ∉ s.ins n ++ s.outs n) :
+    let s' := (replaceNode P (fuel + 1) s n [] []).1
+    s'.conns i = s.conns i ∧ firstData s' (s'.conns i) = firstData s (s.conns i) := by
+  intro s'
+  have hc := (C03_replace_keeps_order P (fuel + 1) s n [] []).1
+  refine ⟨by rw [hc], ?_⟩
+  rw [show s'.conns i = s.conns i from by rw [hc]]
+  apply firstData_congr
+  intro o ho
+  simp only [s']
+  rw [replaceNode_top]
+  by_cases hv : replValid P s (s.ins n ++ s.outs n) = true
+  · simp only [hv, if_true]
+    rw [softCopy_val_other P fuel s (resetNode s n (s.ins n ++ s.outs n)) (s.ins n ++ s.outs n)
+      (fun c hc' => by simp only [resetNode, hc', if_true]) o (hup o ho)]
+    simp only [resetNode, hup o ho, if_false]
+  · simp only [hv]
+    rfl
+
 /-! ## concrete worlds (non-vacuity and the witness for the excluded operation) -/
 
 def exKind (c : Nat) : Kind := if c < 3 ∨ c = 20 ∨ c = 21 then .dataIn else .dataOut
@@ -1199,6 +1244,29 @@ example : (setInputs exP 8 mcS [(42, .v (.d 5)), (40, .v (.d 500)), (41, .v (.d 
     (setInputs exP 8 mcS [(42, .v (.d 5)), (40, .v (.d 500)), (41, .v (.d 101))]).1.val 2 = .d 5 ∧
     (setInputs exP 8 mcS [(42, .v (.d 5)), (40, .v (.d 500)), (41, .v (.d 101))]).1.val 41 = .d 100 := by decide
 
+/-! ### a replaced consumer, concretely -/
+
+-- node 0 of `rtS` (x <- 10 first, <- 11 last; both hold data) replaced: same lists, same choice, same call; the
+-- `failed` flag of the old node is gone with it, a value stored under a non-strict hint is not taken over
+example : (replaceNode exP 8 rtS 0 [] []).2 = none ∧ (replaceNode exP 8 rtS 0 [] []).1.conns 0 = [11, 10] ∧
+    fetchVal (replaceNode exP 8 rtS 0 [] []).1 0 = .d 2 ∧
+    (runAny exP 8 8 (replaceNode exP 8 rtS 0 [] []).1 0 []).1.calls = [(0, [.d 2, .d 100, .d 5])] := by decide
+example : let s := Data.run exP 8 rtS [.flag 0 false true, .setStrict 1 false, .set 1 (.d 7)]
+    (runAny exP 8 8 s 0 []).2 = .err .readiness ∧ (replaceNode exP 8 s 0 [] []).1.failed 0 = false ∧
+    (replaceNode exP 8 s 0 [] []).1.val 1 = .nd ∧ (replaceNode exP 8 s 0 [] []).1.strict 1 = true := by decide
+
+/-- a replacement that rebuilds the node's own lists from what `copy_io` prepended (seeded change C03-10):
+every input of the node comes back oldest-first -/
+def replaceRev (s : S) (n : Nat) : S :=
+  { s with conns := fun c => if c ∈ s.ins n then (s.conns c).reverse else s.conns c }
+
+/-- … and the replaced consumer runs on its OLDEST upstream: `C03_replace_keeps_priority` fails for it -/
+theorem C03_replace_reversed_witness :
+    (replaceRev rtS 0).conns 0 = [10, 11] ∧ fetchVal (replaceRev rtS 0) 0 = .d 1 ∧ fetchVal rtS 0 = .d 2 ∧
+    (runAny exP 8 8 (replaceRev rtS 0) 0 []).1.calls = [(0, [.d 1, .d 100, .d 5])] ∧
+    (runAny exP 8 8 (replaceNode exP 8 rtS 0 [] []).1 0 []).1.calls = [(0, [.d 2, .d 100, .d 5])] := by
+  decide
+
 /-! ### witnesses for the two seeded variants -/
 
 /-- `rtS` with the node that owns upstream 11 in the middle of a run -/
@@ -1269,3 +1337,6 @@ end PwVerif.C03
 #print axioms PwVerif.C03.C03_ready_current_value
 #print axioms PwVerif.C03.C03_mutation_shuts_gate
 #print axioms PwVerif.C03.C03_memoised_ready_witness
+#print axioms PwVerif.C03.C03_replace_keeps_order
+#print axioms PwVerif.C03.C03_replace_keeps_priority
+#print axioms PwVerif.C03.C03_replace_reversed_witness
